@@ -218,3 +218,15 @@ Proof.
     replace (n - s + s) with n by lia.
     destruct (Z.testbit c n), (Z.testbit y (n - s)), (Z.testbit (Z.ones 256) n); reflexivity.
 Qed.
+
+Lemma div_pow2 x k : 0 <= k < 256 -> wdiv x (2 ^ k) = wshr k x.
+Proof.
+  intros Hk. unfold wdiv, wshr. destruct (Z.ltb_spec k 256); [|lia].
+  pose proof (Z.pow_pos_nonneg 2 k ltac:(lia) ltac:(lia)). destruct (Z.eqb_spec (2 ^ k) 0); [lia|reflexivity].
+Qed.
+Lemma mul_pow2 x k : 0 <= k < 256 -> wmul (2 ^ k) x = wshl k x.
+Proof. intros Hk. unfold wmul, wshl. destruct (Z.ltb_spec k 256); [|lia]. rewrite Z.mul_comm. reflexivity. Qed.
+Lemma shl_big s x : 256 <= s -> wshl s x = 0.
+Proof. intros H. unfold wshl. destruct (Z.ltb_spec s 256); [lia|reflexivity]. Qed.
+Lemma shr_big s x : 256 <= s -> wshr s x = 0.
+Proof. intros H. unfold wshr. destruct (Z.ltb_spec s 256); [lia|reflexivity]. Qed.
